@@ -814,4 +814,23 @@ Proof.
   rewrite !gen_canonical_compare by (assumption || lia). cbv zeta.
   destruct (go_canonical_compare o nx); destruct (go_canonical_compare x o); destruct (go_canonical_compare x nx); reflexivity.
 Qed.
+
+(* ---- the same ties stated against the ORDER and the SUFFIX COUNT the proofs use (canonical names) *)
+Lemma canon_length (n : name) : length (canon n) = length n.
+Proof. unfold canon. rewrite rev_length, map_length. reflexivity. Qed.
+
+(* non-vacuity, by evaluating the generated code: www.Example.com. / example.COM. share 2 labels; a.b. < c.b.;
+   example.COM. is at/below com.; the NSEC a.b. -> c.b. covers b\000... no: covers "b.b."; too little fuel = None *)
+Example gen_code_examples :
+  let n (l : list String.string) : name := map bytes_of_string l in
+  plain_name (n ["www"; "Example"; "com"]%string) /\
+  go_CompareSuffix 40 (present (n ["www"; "Example"; "com"]%string)) (present (n ["example"; "COM"]%string)) = Some 2 /\
+  go_CanonicalCompare 20 (present (n ["a"; "b"]%string)) (present (n ["c"; "b"]%string)) = Some (-1) /\
+  go_Sub 40 (present (n ["com"]%string)) (present (n ["example"; "COM"]%string)) = Some true /\
+  go_nsecCovers 40 (present (n ["a"; "b"]%string)) (present (n ["c"; "b"]%string)) (present (n ["b"; "b"]%string)) = Some true /\
+  go_CanonicalCompare 1 (present (n ["a"; "b"]%string)) (present (n ["c"; "b"]%string)) = None.
+Proof.
+  cbv zeta. split; [|vm_compute; repeat split; reflexivity].
+  repeat constructor; try discriminate; vm_compute; intros H; repeat (destruct H as [H|H]; [discriminate|]); exact H.
+Qed.
 End CompareDecodedFold.
